@@ -8,7 +8,7 @@ any of them breaks the theorem that talks about it.
 
 Spec (written here, independently of the code): `cellOf`, `namesCell`, `axisAdj`, `faceAdj`.
 -/
-import Strengths.Proofs.Grid
+import Strengths.Proofs.GridGraph
 
 namespace Strengths.C15
 open Strengths Strengths.Gen
@@ -418,12 +418,6 @@ theorem get_neighbors_coords_iff (g : GridShape) {x y z xj yj zj : Int} (hc : in
   · cases g.pz <;> simp <;> omega
   · cases g.pz <;> simp <;> omega
 
-theorem seqRes_map_ok {α β} (f : α → Res β) (gf : α → β) : ∀ (l : List α), (∀ a ∈ l, f a = .ok (gf a)) →
-    seqRes (l.map f) = .ok (l.map gf)
-  | [], _ => rfl
-  | a :: rest, h => by
-    simp only [List.map_cons, seqRes, h a (by simp), seqRes_map_ok f gf rest (fun b hb => h b (by simp [hb]))]
-
 theorem coordsOf_inGrid {g : GridShape} (hv : g.valid = true) {i : Int} (hi : 0 ≤ i ∧ i < (g.w : Int) * g.h * g.d) :
     inGrid g (coordsOf g i).1 (coordsOf g i).2.1 (coordsOf g i).2.2 ∧
     cellOf g (coordsOf g i).1 (coordsOf g i).2.1 (coordsOf g i).2.2 = i := by
@@ -696,6 +690,33 @@ theorem grid_to_graph_geometry {g : GridShape} {a : Rat} {envs : List Int} {gr :
     obtain ⟨p, _, rfl⟩ := he
     exact ⟨rfl, rfl⟩
 
+/-! ### adjacency of `grid_to_graph`: edges = face pairs, with multiplicity -/
+
+theorem idxC_eq (g : GridShape) (c : Coord) : idxC g c = cellOf g c.1 c.2.1 c.2.2 := by
+  simp only [idxC, cellIndexArr, cellOf]; ring
+
+/-- the negative faces of `c1` are the positive faces seen from the other cell -/
+theorem reach_neg_iff (g : GridShape) {c1 c2 : Coord} (h1 : inGrid g c1.1 c1.2.1 c1.2.2) (h2 : inGrid g c2.1 c2.2.1 c2.2.2) :
+    (reach g 1 c1 c2 ↔ reach g 0 c2 c1) ∧ (reach g 3 c1 c2 ↔ reach g 2 c2 c1) ∧ (reach g 5 c1 c2 ↔ reach g 4 c2 c1) := by
+  obtain ⟨x1, y1, z1⟩ := c1
+  obtain ⟨x2, y2, z2⟩ := c2
+  dsimp only at h1 h2
+  obtain ⟨⟨a0, a1⟩, ⟨b0, b1⟩, ⟨c0, c1'⟩⟩ := h1
+  obtain ⟨⟨d0, d1⟩, ⟨e0, e1⟩, ⟨f0, f1⟩⟩ := h2
+  simp only [reach]
+  refine ⟨?_, ?_, ?_⟩
+  · cases g.px <;> simp <;> omega
+  · cases g.py <;> simp <;> omega
+  · cases g.pz <;> simp <;> omega
+
+/-- the faces between two cells = the directed edges one way + the directed edges the other way -/
+theorem faceCount_eq_edge_count (g : GridShape) {c1 c2 : Coord} (h1 : inGrid g c1.1 c1.2.1 c1.2.2) (h2 : inGrid g c2.1 c2.2.1 c2.2.2) :
+    faceCount g c1 c2 = (coordEdges g).count (c1, c2) + (coordEdges g).count (c2, c1) := by
+  obtain ⟨r1, r3, r5⟩ := reach_neg_iff g h1 h2
+  rw [faceCount_eq_sum, count_coordEdges g h1, count_coordEdges g h2]
+  simp only [r1, r3, r5]
+  omega
+
 /-- `get_edge(i, j)` finds an edge iff one joins `i` and `j` in either orientation -/
 theorem get_edge_iff (edges : List PyGEdge) (i j : Int) :
     (getEdge edges i j).isSome = true ↔ ∃ e ∈ edges, (e.i = i ∧ e.j = j) ∨ (e.i = j ∧ e.j = i) := by
@@ -704,6 +725,130 @@ theorem get_edge_iff (edges : List PyGEdge) (i j : Int) :
 theorem get_edge_symm (edges : List PyGEdge) (i j : Int) : (getEdge edges i j).isSome = (getEdge edges j i).isSome := by
   rw [Bool.eq_iff_iff, get_edge_iff, get_edge_iff]
   constructor <;> (rintro ⟨e, he, h⟩; exact ⟨e, he, h.symm⟩)
+
+/-- number of edges of `grid_to_graph` oriented from cell `c1` to cell `c2` -/
+theorem edge_filter_count {g : GridShape} (hv : g.valid = true) {a : Rat} {envs : List Int} {gr : Graph}
+    (h : gridToGraph g a envs = .ok gr) {c1 c2 : Coord} (h1 : inGrid g c1.1 c1.2.1 c1.2.2) (h2 : inGrid g c2.1 c2.2.1 c2.2.2) :
+    (gr.edges.filter fun e => e.i == cellOf g c1.1 c1.2.1 c1.2.2 && e.j == cellOf g c2.1 c2.2.1 c2.2.2).length =
+      (coordEdges g).count (c1, c2) := by
+  rw [gridToGraph_ok g hv a envs] at h
+  cases h
+  simp only [← List.countP_eq_length_filter, List.countP_map, List.count_eq_countP]
+  apply List.countP_congr
+  intro p hp
+  obtain ⟨p1, p2⟩ := coordEdges_inGrid g hv p hp
+  simp only [Function.comp, idxC_eq, Bool.and_eq_true, beq_iff_eq]
+  constructor
+  · rintro ⟨e1, e2⟩
+    obtain ⟨a1, a2, a3⟩ := index_injective g p1 h1 e1
+    obtain ⟨b1, b2, b3⟩ := index_injective g p2 h2 e2
+    exact Prod.ext (Prod.ext a1 (Prod.ext a2 a3)) (Prod.ext b1 (Prod.ext b2 b3))
+  · rintro rfl; exact ⟨rfl, rfl⟩
+
+/-- **grid_to_graph_adjacency** — for every valid grid (all sizes, all 8 boundary settings) the edges of
+`grid_to_graph(grid)` are exactly the face pairs of the grid, periodic ones included:
+(1) every edge joins two face-adjacent cells; (2) every face pair is joined by an edge (`get_edge` finds it, in both
+argument orders); (3) multiplicity: the number of edges between two cells, counted in both orientations, is the number
+of faces through which they touch (`faceCount`: 1 in general, 2 across a periodic axis of length 2; for a cell with itself
+each self-loop counts twice = 2 per periodic axis of length 1) — the same multiplicities as the engine's table
+(`engine_nbr_count`) -/
+theorem grid_to_graph_adjacency {g : GridShape} (hv : g.valid = true) {a : Rat} {envs : List Int} {gr : Graph}
+    (h : gridToGraph g a envs = .ok gr) :
+    (∀ e ∈ gr.edges, ∃ c1 c2 : Coord, inGrid g c1.1 c1.2.1 c1.2.2 ∧ inGrid g c2.1 c2.2.1 c2.2.2 ∧
+      e.i = cellOf g c1.1 c1.2.1 c1.2.2 ∧ e.j = cellOf g c2.1 c2.2.1 c2.2.2 ∧ faceAdj g c1 c2) ∧
+    (∀ c1 c2 : Coord, inGrid g c1.1 c1.2.1 c1.2.2 → inGrid g c2.1 c2.2.1 c2.2.2 → faceAdj g c1 c2 →
+      (getEdge gr.edges (cellOf g c1.1 c1.2.1 c1.2.2) (cellOf g c2.1 c2.2.1 c2.2.2)).isSome = true ∧
+      (getEdge gr.edges (cellOf g c2.1 c2.2.1 c2.2.2) (cellOf g c1.1 c1.2.1 c1.2.2)).isSome = true) ∧
+    (∀ c1 c2 : Coord, inGrid g c1.1 c1.2.1 c1.2.2 → inGrid g c2.1 c2.2.1 c2.2.2 →
+      (gr.edges.filter fun e => e.i == cellOf g c1.1 c1.2.1 c1.2.2 && e.j == cellOf g c2.1 c2.2.1 c2.2.2).length +
+      (gr.edges.filter fun e => e.i == cellOf g c2.1 c2.2.1 c2.2.2 && e.j == cellOf g c1.1 c1.2.1 c1.2.2).length =
+        faceCount g c1 c2) := by
+  have h3 : ∀ c1 c2 : Coord, inGrid g c1.1 c1.2.1 c1.2.2 → inGrid g c2.1 c2.2.1 c2.2.2 →
+      (gr.edges.filter fun e => e.i == cellOf g c1.1 c1.2.1 c1.2.2 && e.j == cellOf g c2.1 c2.2.1 c2.2.2).length +
+      (gr.edges.filter fun e => e.i == cellOf g c2.1 c2.2.1 c2.2.2 && e.j == cellOf g c1.1 c1.2.1 c1.2.2).length =
+        faceCount g c1 c2 := by
+    intro c1 c2 h1 h2
+    rw [edge_filter_count hv h h1 h2, edge_filter_count hv h h2 h1, faceCount_eq_edge_count g h1 h2]
+  refine ⟨?_, ?_, h3⟩
+  · intro e he
+    have hg := h
+    rw [gridToGraph_ok g hv a envs] at hg
+    cases hg
+    simp only [List.mem_map] at he
+    obtain ⟨p, hp, rfl⟩ := he
+    obtain ⟨p1, p2⟩ := coordEdges_inGrid g hv p hp
+    refine ⟨p.1, p.2, p1, p2, idxC_eq g p.1, idxC_eq g p.2, ?_⟩
+    have hpos : 0 < (coordEdges g).count (p.1, p.2) := List.count_pos_iff.2 hp
+    rw [count_coordEdges g p1] at hpos
+    rw [faceAdj_iff_reach g p1 p2]
+    by_cases r0 : reach g 0 p.1 p.2
+    · exact ⟨0, by omega, r0⟩
+    by_cases r2 : reach g 2 p.1 p.2
+    · exact ⟨2, by omega, r2⟩
+    by_cases r4 : reach g 4 p.1 p.2
+    · exact ⟨4, by omega, r4⟩
+    simp [r0, r2, r4] at hpos
+  · intro c1 c2 h1 h2 hadj
+    have hc := h3 c1 c2 h1 h2
+    have hpos : 0 < faceCount g c1 c2 := by
+      obtain ⟨n, hn, hr⟩ := (faceAdj_iff_reach g h1 h2).1 hadj
+      unfold faceCount
+      exact List.length_pos_of_mem (List.mem_filter.2 ⟨List.mem_range.2 hn, by simpa using hr⟩)
+    have hex : ∃ e ∈ gr.edges, (e.i = cellOf g c1.1 c1.2.1 c1.2.2 ∧ e.j = cellOf g c2.1 c2.2.1 c2.2.2) ∨
+        (e.i = cellOf g c2.1 c2.2.1 c2.2.2 ∧ e.j = cellOf g c1.1 c1.2.1 c1.2.2) := by
+      rw [← hc] at hpos
+      rcases Nat.add_pos_iff_pos_or_pos.1 hpos with hp | hp
+      · obtain ⟨e, he⟩ := List.exists_mem_of_length_pos hp
+        obtain ⟨hm, hcond⟩ := List.mem_filter.1 he
+        simp only [Bool.and_eq_true, beq_iff_eq] at hcond
+        exact ⟨e, hm, Or.inl hcond⟩
+      · obtain ⟨e, he⟩ := List.exists_mem_of_length_pos hp
+        obtain ⟨hm, hcond⟩ := List.mem_filter.1 he
+        simp only [Bool.and_eq_true, beq_iff_eq] at hcond
+        exact ⟨e, hm, Or.inr hcond⟩
+    have := (get_edge_iff gr.edges _ _).2 hex
+    exact ⟨this, by rw [← get_edge_symm]; exact this⟩
+
+/-- index level: `get_edge(i, j)` on `grid_to_graph(grid)` finds an edge iff cells `i` and `j` are face-adjacent -/
+theorem grid_to_graph_get_edge_iff {g : GridShape} (hv : g.valid = true) {a : Rat} {envs : List Int} {gr : Graph}
+    (h : gridToGraph g a envs = .ok gr) {i j : Int}
+    (hi : 0 ≤ i ∧ i < (g.w : Int) * g.h * g.d) (hj : 0 ≤ j ∧ j < (g.w : Int) * g.h * g.d) :
+    (getEdge gr.edges i j).isSome = true ↔ faceAdj g (coordsOf g i) (coordsOf g j) := by
+  obtain ⟨ci, hci⟩ := coordsOf_inGrid hv hi
+  obtain ⟨cj, hcj⟩ := coordsOf_inGrid hv hj
+  obtain ⟨hsound, hcomplete, _⟩ := grid_to_graph_adjacency hv h
+  constructor
+  · intro hs
+    obtain ⟨e, he, hor⟩ := (get_edge_iff gr.edges i j).1 hs
+    obtain ⟨c1, c2, h1, h2, e1, e2, hadj⟩ := hsound e he
+    have sym : faceAdj g c2 c1 := by
+      rw [faceAdj_iff_reach g h2 h1]
+      obtain ⟨n, hn, hr⟩ := (faceAdj_iff_reach g h1 h2).1 hadj
+      obtain ⟨r1, r3, r5⟩ := reach_neg_iff g h2 h1
+      obtain ⟨q1, q3, q5⟩ := reach_neg_iff g h1 h2
+      have h6 : n = 0 ∨ n = 1 ∨ n = 2 ∨ n = 3 ∨ n = 4 ∨ n = 5 := by omega
+      rcases h6 with rfl | rfl | rfl | rfl | rfl | rfl
+      · exact ⟨1, by omega, r1.2 hr⟩
+      · exact ⟨0, by omega, q1.1 hr⟩
+      · exact ⟨3, by omega, r3.2 hr⟩
+      · exact ⟨2, by omega, q3.1 hr⟩
+      · exact ⟨5, by omega, r5.2 hr⟩
+      · exact ⟨4, by omega, q5.1 hr⟩
+    rcases hor with ⟨a1, a2⟩ | ⟨a1, a2⟩
+    · have x1 : c1 = coordsOf g i := by
+        obtain ⟨u, v, w⟩ := index_injective g h1 ci (by rw [← e1, a1, hci]); exact Prod.ext u (Prod.ext v w)
+      have x2 : c2 = coordsOf g j := by
+        obtain ⟨u, v, w⟩ := index_injective g h2 cj (by rw [← e2, a2, hcj]); exact Prod.ext u (Prod.ext v w)
+      rw [← x1, ← x2]; exact hadj
+    · have x1 : c1 = coordsOf g j := by
+        obtain ⟨u, v, w⟩ := index_injective g h1 cj (by rw [← e1, a1, hcj]); exact Prod.ext u (Prod.ext v w)
+      have x2 : c2 = coordsOf g i := by
+        obtain ⟨u, v, w⟩ := index_injective g h2 ci (by rw [← e2, a2, hci]); exact Prod.ext u (Prod.ext v w)
+      rw [← x1, ← x2]; exact sym
+  · intro hadj
+    have := (hcomplete _ _ ci cj hadj).1
+    rw [hci, hcj] at this
+    exact this
 
 /-! ## non-vacuity -/
 
